@@ -68,7 +68,7 @@ ENGINES["filec"] = dict(
 # a broken correspondence is charged to the properties whose SYS_ theorem speaks about that part
 SYS_PARTS = {"C11": {"sent", "header"}, "C12": {"sent", "header", "relay", "dest"}, "C15": {"dest"}, "C13": {"sent", "opts", "addr"},
              "C14": {"sent", "opts", "addr"}, "C10": {"addr", "opts"}, "C17": {"opts"}, "C01": set(), "C19": set(),
-             "C08": {"pd"}, "C09": {"pd"}}
+             "C08": {"pd"}, "C09": {"pd"}, "C02": {"addr", "o51"}}
 
 
 def sys_owner(line, pid, msg):
@@ -129,7 +129,7 @@ TB_PLUG = "insomniacslk/dhcp option encoders/decoders: mirrored in Lean (enc*/de
 PROPS = {
     "C14": dict(
         engines=[("plug", 4000, 60000), ("sys", 1500, 30000)],
-        theorems=["C14_v6", "C14_v6_matrix", "C14_v6_matrix_all", "C14_v6_duid_of_setup", "C14_v4", "C14_v4_addr_of_setup", "SYS_C14_drop4", "SYS_C14_drop6"],
+        theorems=["C14_v6", "C14_v6_matrix", "C14_v6_matrix_all", "C14_v6_duid_of_setup", "C14_v4", "C14_v4_addr_of_setup", "SYS_C14_drop4", "SYS_C14_drop6", "SYS_C14_stamped4", "SYS_C14_stamped6"],
         modules=["CoreDhcp.Props.C14", "CoreDhcp.Props.System"],
         trusted_base=[TB_PLUG],
         assumptions=["the response handed to server_id carries at most one Server-ID option (true of every chain of built-in plugins)", "strings.ToLower of the DUID type is modelled for ASCII"],
@@ -187,7 +187,7 @@ PROPS = {
     ),
     "C10": dict(
         engines=[("file", 1500, 20000), ("filec", 40, 250), ("sys", 1500, 30000)],
-        theorems=["C10_holds", "C10_accept_iff_wellformed", "C10_mapping_is_file", "C10_all_or_nothing", "C10_own_file", "C10_D8_prefix_refuted", "SYS_file_address4", "SYS_file_address4_cfg", "SYS_file_stops4"],
+        theorems=["C10_holds", "C10_accept_iff_wellformed", "C10_mapping_is_file", "C10_all_or_nothing", "C10_own_file", "C10_D8_prefix_refuted", "SYS_file_address4", "SYS_file_address4_cfg", "SYS_file_address4_lease", "SYS_file_stops4"],
         modules=["CoreDhcp.Props.C10", "CoreDhcp.Props.System"],
         trusted_base=["bytes.Split / strings.Fields / net.ParseMAC / net.ParseIP: each line reaches the model as the fields the code sees with the parsers' answers", "fsnotify delivery ('eventually') is runtime: the harness rewrites the file and waits (bounded) for the served table to be replaced", "dhcpv6.ExtractMAC"],
         facts=["F11"],
@@ -243,9 +243,9 @@ PROPS = {
         assumptions=["the listener is bound to an interface or the kernel reported the receiving one; the excluded point (link-level reply with no interface information) dereferences a nil control message in the code and is `panicNoIf` in the model"],
     ),
     "C02": dict(
-        engines=[("range", 2500, 20000), ("rangec", 1000, 15000)],
-        theorems=["C02_holds", "C02_progress"],
-        modules=["CoreDhcp.Props.C02"],
+        engines=[("range", 2500, 20000), ("rangec", 1000, 15000), ("sys", 1500, 30000)],
+        theorems=["C02_holds", "C02_progress", "SYS_C02_lease4", "SYS_C02_addr4"],
+        modules=["CoreDhcp.Props.C02", "CoreDhcp.Props.System"],
         facts=["F1"],
         trusted_base=[TB_BITSET, TB_SQLITE, TB_CLOCK],
         assumptions=["Handler4 is one atomic step (PluginState mutex held by defer for the whole call; fact F1)",
@@ -343,6 +343,12 @@ GEN_THEOREMS = {
     "C07": ("CoreDhcp.Props.GenAlloc4", ["GEN_a4_allocate_eq", "GEN_a4_toOffset_eq"]),
 }
 GEN_THEOREMS_MORE = [
+    # server.Start, listen4/6 and Close regenerated (unit start)
+    ("C13", "CoreDhcp.Props.GenStart", ['GEN_start_start_eq', 'GEN_start_loop6_acc', 'GEN_start_loop4_acc', 'GEN_start_close_eq', 'GEN_start_closeLoop_acc', 'START_every_section_listens', 'START_whole_chain', 'START_cleanup', 'START_failed_listen_leaks_socket', 'START_load_error_opens_nothing']),
+    ("C15", "CoreDhcp.Props.GenStart", ['GEN_start_listen4_eq', 'GEN_start_start_eq', 'START_unbound_has_pktinfo']),
+    ("C12", "CoreDhcp.Props.GenStart", ['GEN_start_listen6_eq', 'GEN_start_start_eq', 'START_unbound_has_pktinfo']),
+    # plugins/range/storage.go regenerated (unit storage)
+    ("C03", "CoreDhcp.Props.GenStorage", ['GEN_storage_parseHWAddr_eq', 'GEN_storage_parseHWAddr_nopanic', 'GEN_storage_parseUint_probes', 'GEN_storage_split_probes', 'GEN_storage_loadRecords_spec', 'GEN_storage_loadRecords_eq', 'GEN_storage_loadRecords_concrete', 'GEN_storage_query_cols', 'GEN_storage_save_eq', 'GEN_storage_schema', 'GEN_storage_loadDB_eq', 'GEN_storage_register_eq', 'GEN_storage_key_roundtrip']),
     # the set-up (argument validation) functions of all option plugins regenerated (unit setups)
     ("C19", "CoreDhcp.Props.GenSetups", ['GEN_setup_mtu4_eq', 'GEN_setup_sleep4_eq', 'GEN_setup_sleep6_eq', 'GEN_setup_leasetime4_eq', 'GEN_setup_ipv6only4_eq', 'GEN_setup_autoconfigure4_eq', 'GEN_setup_nbp4_eq', 'GEN_setup_nbp6_eq', 'GEN_setup_netmask4_eq', 'GEN_setup_netmask4_eq_wf', 'GEN_setup_netmask4_needs_len', 'GEN_setup_router4_eq', 'GEN_setup_dns4_eq', 'GEN_setup_dns6_eq', 'GEN_setup_staticroute4_eq', 'GEN_setup_searchdomains4_eq', 'GEN_setup_searchdomains6_eq', 'GEN_setup_router4_accumulates', 'GEN_setup_ipv6only4_keeps', 'GEN_setup_autoconfigure4_keeps', 'GEN_setup_nbp4_keeps66', 'GEN_setup_nbp6_keeps60']),
     ("C14", "CoreDhcp.Props.GenSetups", ['GEN_setup_serverid4_eq', 'GEN_setup_serverid6_eq']),
